@@ -69,6 +69,42 @@ impl Buffer {
         &&& forall|i: int| 0 <= i < o.len() ==> (#[trigger] self.lines@[i]).v() == o.lines@[i].v()
     }
 
+    /// [C06] `self` is `o` after scroll_up(start..end, n, pen)
+    pub open spec fn scrolled_up(&self, o: Buffer, start: int, end: int, n: int, pen: Pen) -> bool {
+        let k = min_int(n, end - start);
+        &&& self.same_meta(o)
+        &&& self.trim_needed
+        &&& self.len() == o.len() + (if start == 0 { k } else { 0 })
+        &&& (forall|i: int| 0 <= i < o.off() ==> (#[trigger] self.lines@[i]).v() == o.lines@[i].v())
+        &&& (start == 0 ==> forall|j: int| 0 <= j < k ==> (#[trigger] self.lines@[o.off() + j]).v() == o.row_pre_su(end, j))
+        &&& (forall|r: int| 0 <= r < o.rows ==> (#[trigger] self.row(r)).v() == o.su_row(start, end, k, pen, r))
+    }
+
+    /// [C06] `self` is `o` after scroll_down(start..end, n, pen)
+    pub open spec fn scrolled_down(&self, o: Buffer, start: int, end: int, n: int, pen: Pen) -> bool {
+        &&& self.same_meta(o)
+        &&& self.trim_needed == o.trim_needed
+        &&& self.sback_same(o)
+        &&& (forall|r: int| 0 <= r < o.rows ==> (#[trigger] self.row(r)).v() == o.sd_row(start, end, min_int(n, end - start), pen, r))
+    }
+
+    /// [C07] `self` is `o` after erase((col, row), mode, pen)
+    pub open spec fn erased(&self, o: Buffer, col: int, row: int, mode: EraseMode, pen: Pen) -> bool {
+        &&& self.same_meta(o)
+        &&& self.trim_needed == o.trim_needed
+        &&& self.sback_same(o)
+        &&& (forall|r: int, c: int| 0 <= r < o.rows && 0 <= c < o.cols ==> (#[trigger] self.row(r).cells@[c]) == (if erase_extent(mode, col, row, o.cols as int, c, r) { Cell(' ', pen) } else { o.row(r).cells@[c] }))
+        &&& (forall|r: int| 0 <= r < o.rows ==> (#[trigger] self.row(r)).wrapped == (o.row(r).wrapped && !erase_unwraps(mode, col, row, o.cols as int, r)))
+    }
+
+    /// only view row `row` may differ from `o`; scrollback and bookkeeping are the same
+    pub open spec fn only_row_changed(&self, o: Buffer, row: int) -> bool {
+        &&& self.same_meta(o)
+        &&& self.trim_needed == o.trim_needed
+        &&& self.sback_same(o)
+        &&& self.rows_same_outside(o, row, row + 1)
+    }
+
     /// row r of `self` with the unwrap that scroll_up applies to the last row of the range
     pub open spec fn row_pre_su(&self, end: int, r: int) -> LineV {
         if r == end - 1 && end - 1 < self.rows - 1 { unwrapped(self.row(r).v()) } else { self.row(r).v() }
